@@ -156,9 +156,9 @@ func (c *fctx) pow64(sc *scope, e ast.Expr) (string, typ) {
 	if !ok || len(call.Args) != 2 || !isMath(c, sc, call.Fun, "Pow") {
 		c.fail(e, "int64(..) of the floating-point expression %s (int64 mode knows int64(math.Pow(2, float64(e))) and int64(math.Pow(2, math.Abs(float64(e)))))", exprString(e))
 	}
-	base, isLit := unparen(call.Args[0]).(*ast.BasicLit)
-	if !isLit {
-		c.fail(e, "math.Pow with a base that is not a literal")
+	base, negBase := c.literalOf(call.Args[0], c.curFunc, 0)
+	if base == nil || negBase {
+		c.fail(e, "math.Pow with a base that is not a literal (or a named literal constant)")
 	}
 	bv := constant.MakeFromLiteral(base.Value, base.Kind, 0)
 	if f, exact := constant.Float64Val(constant.ToFloat(bv)); bv.Kind() == constant.Unknown || f != 2 || !exact {
@@ -172,6 +172,10 @@ func (c *fctx) pow64(sc *scope, e ast.Expr) (string, typ) {
 	}
 	cv, ok := ex.(*ast.CallExpr)
 	if !ok || len(cv.Args) != 1 || !isConv(sc, cv.Fun, "float64") {
+		if c.isFloatExpr(sc, call.Args[1]) && !c.fmode {
+			// a float64 that is an integer by construction, e.g. a local bound to math.Abs(float64(e)): its integer value (pure)
+			return "(pow2_64 " + c.floatInt(sc, call.Args[1]) + ")", typ{k: kZ, m: true}
+		}
 		c.fail(e, "exponent %s of math.Pow (expected float64(e) or math.Abs(float64(e)) of an int64 e)", exprString(call.Args[1]))
 	}
 	code, t := c.expr(sc, cv.Args[0])
